@@ -30,16 +30,20 @@ type vhMeta struct {
 
 func (m *vhMeta) Sign(k Key) error { m.signed = append(m.signed, k.KeyID); return nil }
 
-// VerifySignature follows the contract of both wrappers: the first signature
-// carrying the key's id is checked against the key.
+// VerifySignature follows the contract of both wrappers: the signatures carrying
+// the key's id are checked against the key, one valid signature suffices.
 func (m *vhMeta) VerifySignature(k Key) error {
+	found := false
 	for i, s := range m.sigs {
 		if s.KeyID == k.KeyID {
+			found = true
 			if vUFBool("valid", m.tag, strconv.Itoa(i), k.KeyVal.Public) {
 				return nil
 			}
-			return errors.New("vh: invalid signature")
 		}
+	}
+	if found {
+		return errors.New("vh: invalid signature")
 	}
 	return errors.New("vh: no signature for key")
 }
@@ -339,3 +343,48 @@ func vh_C02_certroute(a []int) {
 }
 
 func init() { vhRegister("vh_C02_certroute", vh_C02_certroute) }
+
+// vh_C02_certchain: from the layout's CA maps to the threshold verdict — the real LoadLayoutCertificates
+// (PEM loading is an oracle) feeding the real VerifyLinkSignatureThesholds.  A certificate is only ever
+// checked against the pools built from the layout (and the caller's intermediates): never against nil
+// roots, which crypto/x509 takes for the host's system trust store.
+// a = {#root CAs of the layout, #intermediate CAs}
+func vh_C02_certchain(a []int) {
+	vhPoolAdds, vhVerifyCalls, vhVerifyNilRoots = nil, 0, false
+	layout := Layout{Type: "layout", Keys: map[string]Key{}, RootCas: map[string]Key{}, IntermediateCas: map[string]Key{}}
+	if vBool("cas-nil-not-empty") {
+		layout.RootCas, layout.IntermediateCas = nil, nil
+	}
+	for i := 0; i < a[0]; i++ {
+		if layout.RootCas == nil {
+			layout.RootCas = map[string]Key{}
+		}
+		layout.RootCas[vhStepNames[i]] = Key{KeyID: vhStepNames[i], KeyVal: KeyVal{Certificate: "ROOT" + vhStepNames[i]}}
+	}
+	for i := 0; i < a[1]; i++ {
+		if layout.IntermediateCas == nil {
+			layout.IntermediateCas = map[string]Key{}
+		}
+		layout.IntermediateCas[vhStepNames[i]] = Key{KeyID: vhStepNames[i], KeyVal: KeyVal{Certificate: "INTER" + vhStepNames[i]}}
+	}
+	layout.Steps = []Step{{Type: "step", Threshold: 1, SupplyChainItem: SupplyChainItem{Name: "s1"},
+		CertificateConstraints: []CertificateConstraint{{CommonName: "*", DNSNames: []string{"*"}, Emails: []string{"*"}, Organizations: []string{"*"}, Roots: []string{"*"}, URIs: []string{"*"}}}}}
+	vhParseErr, vhParsedObj = false, &x509.Certificate{Subject: pkix.Name{CommonName: "a"}}
+	root, inter, err := LoadLayoutCertificates(layout, nil)
+	if err != nil {
+		vObserve("certchain", false, false)
+		vReach("C02.end")
+		return
+	}
+	vhRootPool, vhIntermPool = root, inter
+	m := &vhMeta{tag: "L0", payload: Link{Type: "link", Name: "s1"}, sigs: []Signature{{KeyID: vhFID[0], Sig: "00", Certificate: vhFCert[0]}}}
+	_, terr := VerifyLinkSignatureThesholds(layout, map[string]map[string]Metadata{"s1": {vhFID[0]: m}}, root, inter)
+	vObserve("certchain", true, terr == nil)
+	vAssert("C02.certificates-are-checked-against-the-layout-pools-never-the-system-trust-store", !vhVerifyNilRoots && root != nil && inter != nil)
+	if terr == nil {
+		vAssert("C02.a-counted-certificate-was-chained-to-the-layout-pools", vhVerifyCalls >= 1 && vhVerifyRootsOK)
+	}
+	vReach("C02.end")
+}
+
+func init() { vhRegister("vh_C02_certchain", vh_C02_certchain) }
